@@ -43,6 +43,34 @@ def harness_mod_name(path):
     return os.path.splitext(os.path.basename(path))[0]
 
 
+def layout_module(dest, specs):
+    """Generate `pub mod layout` from the struct definitions found in the COPIED source (so that a field added, renamed or
+    retyped by a change is picked up without editing /verif).  specs: [(source file rel. to crate, struct name, type path)].
+    For struct S the module provides  s_exempt(i) -> bool  (byte i of the storage belongs to no field: padding) and
+    s_valid(bytes) -> bool  (every `bool` field byte is 0 or 1)."""
+    out = ["pub mod layout {\n    fn fsz<T, F>(_f: fn(&T) -> &F) -> usize { core::mem::size_of::<F>() }\n"]
+    for rel, sname, tpath in specs:
+        src = open(os.path.join(dest, rel)).read()
+        m = re.search(r"\bstruct\s+%s\s*\{(.*?)\n\}" % re.escape(sname), src, re.S)
+        if not m:
+            raise ShadowError(f"layout: struct {sname} not found in {rel}")
+        body = re.sub(r"//[^\n]*", "", m.group(1))
+        body = re.sub(r"#\[[^\]]*\]", "", body)
+        fields = re.findall(r"(?:pub(?:\([^)]*\))?\s+)?(\w+)\s*:\s*([^,\n]+(?:<[^>]*>)?[^,\n]*),", body + ",")
+        if not fields:
+            raise ShadowError(f"layout: no fields parsed for struct {sname} in {rel}")
+        low = sname.lower()
+        spans = ", ".join("(core::mem::offset_of!(%s, %s), fsz(|x: &%s| &x.%s))" % (tpath, f, tpath, f) for f, _ in fields)
+        out.append("    pub fn %s_fields() -> [(usize, usize); %d] { [%s] }\n" % (low, len(fields), spans))
+        out.append("    pub fn %s_exempt(i: usize) -> bool { let f = %s_fields(); let mut k = 0; let mut inside = false; while k < f.len() { inside |= i >= f[k].0 && i < f[k].0 + f[k].1; k += 1; } !inside }\n" % (low, low))
+        bools = [f for f, t in fields if t.strip() == "bool"]
+        conds = " && ".join("b[core::mem::offset_of!(%s, %s)] <= 1" % (tpath, f) for f in bools) or "true"
+        out.append("    pub fn %s_valid(b: &[u8]) -> bool { %s }\n" % (low, conds))
+        out.append("    // parsed fields of %s: %s\n" % (sname, ", ".join("%s: %s" % (f, t.strip()) for f, t in fields)))
+    out.append("}\n")
+    return "".join(out)
+
+
 def make_shadow(dest, variant, harness_files, harness_index):
     """variant: dict(crate=, features=[], cfgs=[], subs=[Sub], extra_files={rel: content}, pkg_name=None)
     harness_files: list of absolute paths to harness .rs files to inject.
@@ -106,6 +134,9 @@ def make_shadow(dest, variant, harness_files, harness_index):
            "#[macro_use]\n#[path = \"%s/harness/common/prelude.rs\"]\npub mod prelude;\n" % VERIF]
     for extra in variant.get("common_mods", []):
         gen.append("#[macro_use]\n#[path = \"%s/harness/common/%s.rs\"]\npub mod %s;\n" % (VERIF, extra, extra))
+    if variant.get("layouts"):
+        gen.append(layout_module(dest, variant["layouts"]))
+        log.append({"file": "src/verif_kani.rs", "why": "layout tables generated from the struct definitions: " + ", ".join(s for _, s, _ in variant["layouts"]), "matches": len(variant["layouts"])})
     for hf in harness_files:
         gen.append("#[path = \"%s\"]\npub mod %s;\n" % (hf, harness_mod_name(hf)))
     # -- inner injection: harness modules that must live inside a private module to reach its private items.
